@@ -203,6 +203,9 @@ def classify(exc):
 
     if isinstance(exc, Violation):
         return "violation", exc.clause
+    if type(exc).__name__ == "NonTermination" and hasattr(exc, "clause"):
+        # step bound of the scenario layer: more simulated periods than the events account for
+        return "violation", exc.clause
     if isinstance(exc, HarnessError):
         return "harness", str(exc)
     if isinstance(exc, (he.FailedHealthCheck, he.Unsatisfiable, he.InvalidArgument)):
